@@ -440,7 +440,9 @@ def run(ctx):
                 ok, why = False, "an answer %s is returned that is not the result of a sub-search or of the head unification" % show(r)
                 continue
             # which one: complex -> child result, or the unification result when the body is Nil
-            if nm == "complex" and pl is not None:
+            if nm == "complex" and pl is not None and strip(pl)[1][0] == "call" and strip(pl)[1][1] in solver_fns:
+                pass        # Some(set) re-wrapped around the payload of the child's search (`let ss = next_solution(child)?; Some(ss)`)
+            elif nm == "complex" and pl is not None:
                 q = strip(pl)[1]
                 if not q[1].endswith("Unifiable::unify"):
                     ok, why = False, "a rebuilt answer %s" % show(r)
